@@ -833,10 +833,14 @@ def fstr(*pieces):
     return SymStr.mk(items)
 
 
+MERGE_CONDITIONALS = False     # harness opt-in (ex.merge_conditionals()): side-effect-free `a if c else b` becomes an if-then-else term
+
+
 def ifexp(c, fa, fb):
-    """`a if c else b` with a symbolic condition: an if-then-else term when both arms are values that can be merged, a fork otherwise."""
+    """`a if c else b` with a symbolic condition: an if-then-else term when both arms are values that can be merged, a fork otherwise.
+    Only conditional expressions whose arms are syntactically free of calls are routed here (see Rewriter.visit_IfExp)."""
     tc = type(c)
-    if tc is not SymBool and tc is not SymInt:
+    if not MERGE_CONDITIONALS or (tc is not SymBool and tc is not SymInt):
         return fa() if c else fb()
     cond = c if tc is SymBool else (c != 0)
     if type(cond) is not SymBool:
@@ -919,10 +923,13 @@ class Rewriter(ast.NodeTransformer):
         return ast.copy_location(ast.Call(self._name("__sx_fstr__"), pieces, []), node)
 
     def visit_IfExp(self, node):
+        pure = (ast.Constant, ast.Name, ast.Attribute, ast.Subscript, ast.BinOp, ast.UnaryOp, ast.Compare, ast.Tuple, ast.Load, ast.operator, ast.unaryop,
+                ast.cmpop, ast.Slice, ast.BoolOp, ast.boolop, ast.expr_context)
+        # judged on the source as written, before the arms' own sub-expressions are rewritten into dispatcher calls
+        mergeable = all(isinstance(sub, pure) for arm in (node.body, node.orelse) for sub in ast.walk(arm))
         self.generic_visit(node)
-        for sub in ast.walk(node):
-            if isinstance(sub, (ast.Yield, ast.YieldFrom, ast.Await, ast.NamedExpr)):
-                return node
+        if not mergeable:
+            return node       # a call (or anything else that may have an effect) in an arm: keep Python's own evaluation order
         lam = lambda e: ast.Lambda(args=ast.arguments(posonlyargs=[], args=[], kwonlyargs=[], kw_defaults=[], defaults=[]), body=e)  # noqa: E731
         return ast.copy_location(ast.Call(self._name("__sx_ifexp__"), [node.test, lam(node.body), lam(node.orelse)], []), node)
 
